@@ -7,3 +7,13 @@ from harness import C06_schema as h6
 _h = h6.emitted_text_is_valid.harness
 lxml_accepts_conformant = harness('C01', name='lxml_accepts_conformant', params=_h.params, label=_h.label,
                                   functions=_h.functions, bounds=_h.bounds)(_h.fn)
+
+
+# a third-party client may wrap its base64 lines (MIME style) or indent the element: xs:base64Binary allows white space
+# between the characters, the lxml validator accepts such documents - and the value must arrive as the same bytes
+# (same harness body as C08.base64_read_lexical)
+from harness import C08_binary as h8
+
+_b = h8.base64_read_lexical.harness
+base64_with_white_space = harness('C01', name='base64_with_white_space', params=_b.params, label=_b.label,
+                                  functions=_b.functions, bounds=_b.bounds)(_b.fn)
